@@ -259,5 +259,7 @@ def run(res):
         "case; keys, txids and scripts as identities",
         "for an HTLC-timeout the expiry is read from the transaction's own lock time (the offered-HTLC script does not "
         "contain it); only non-zero is enforced, as in the code",
+        "the current chain height in the lock-time bound is the height of the best chain as counted by the harness from "
+        "the blocks it connected and disconnected through the real tracker (model input), not the signer's own counter",
         "the correspondence is differential testing: bounded by the generator described in coverage.rule",
     ]
